@@ -55,8 +55,7 @@ def run(repo, rep):
     rep.clause("C14-d", "a compilation works on private copies of the model's constant data (it neither mutates the caller's buffer nor shares storage between tensors) [rule shared with C11-d3]")
     from . import c11
 
-    with rep.borrow({"C11-d3": "C14-d"}):
-        c11.run(repo, rep)
+    rep.run_borrowed(c11, {"C11-d3": "C14-d"}, repo)
 
 
 # ------------------------------------------------------------------ a
